@@ -503,8 +503,13 @@ func (e *Engine) assertProp(id string, c Value, fr *frame) {
 				}
 				e.recordViolation(Violation{ID: id, Msg: "assertion can be false", Inputs: m, Where: fr.where()})
 			default:
-				st.Unknown++
-				e.inconclusive("solver unknown on assertion " + id)
+				if m, ok := e.probeUnknown(c); ok {
+					st.Violated++
+					e.recordViolation(Violation{ID: id, Msg: "assertion can be false (solver unknown; counterexample found by corner-value probing of the path condition)", Inputs: m, Where: fr.where()})
+				} else {
+					st.Unknown++
+					e.inconclusive("solver unknown on assertion " + id)
+				}
 			}
 		}
 		// continue under the assumption that it holds
